@@ -20,8 +20,8 @@ C01Next == \E m \in Minerals :
               \/ \E c \in Configs, s \in Seeds, tx \in Textures : Create(m, c, s, tx, InitO(s, c.n, tx), InitF(c.n, tx))
               \/ \E fl \in Flows, par \in Pars, cb \in Callbacks \cup {NoCb} :
                     cfg[m] # NULL /\
-                    UpdateOk(m, fl, par, cb, NextO(Last(hist[m]), cfg[m], EffRegime(m, cb), fl, par),
-                                             NextF(Last(hist[m]), cfg[m], EffRegime(m, cb), fl, par))
+                    UpdateOk(m, fl, par, cb, NextOP(Last(hist[m]), cfg[m], EffRegime(m, cb), fl, par, Fm[m]),
+                                             NextFP(Last(hist[m]), cfg[m], EffRegime(m, cb), fl, par, Fm[m]))
 C01Spec == Init /\ [][C01Next]_vars
 \* seed reproducibility of the default-constructed texture: every ordered pair of constructions
 \* (the call log is part of the state, so all pairs are enumerated); equal (seed, n) => equal term
